@@ -314,6 +314,8 @@ def run(tier, seed):
     chk = Check("C11", tier, seed, "other")
     from ..kernels import c04_api_inner
     from .. import frame
+    ok, sites, failing = frame.rule_snapshot_copy()
+    chk.add_rule("C11.S.snapshot_copy", ok, sites, failing, detail="'the choice does not depend on earlier lookups': a lookup that fails discards its snapshot - nothing it did may survive in a shared container")
     ok, sites, failing = frame.rule_lock_reads()
     chk.add_rule("C11.S.lock_reads", ok, sites, failing, detail="BackendRegistry.get & co. only delegate to the proved BackendRegistryState methods under the lock: no memo-first shortcut around the precedence chain")
     for k in c11_registry.KERNELS + c11_names.KERNELS + [q for q in c04_api_inner.KERNELS if q.id == "C04.P.api_entry[run]"]:  # the entry point hands registry.get the backend argument and ALL raw tensor arguments
